@@ -26,6 +26,11 @@ Definition same_preimage (code : bytes) (t : tx) (idx : Z) (t' : tx) (idx' : Z) 
   bytes_eqb (fst a) (fst b) && Bool.eqb (snd a) (snd b).
 Fixpoint ints (l : list val) : list Z := match l with VInt z :: r => z :: ints r | _ => [] end.
 
+(* strictly increasing key indices below nk *)
+Fixpoint plan_ok_from (lo : Z) (plan : list Z) (nk : Z) : bool :=
+  match plan with [] => true | k :: r => (lo <=? k) && (k <? nk) && plan_ok_from (k + 1) r nk end.
+Definition plan_ok (plan : list Z) (nk : Z) : bool := plan_ok_from 0 plan nk.
+
 Definition run_C05 (op : Z) (args : list val) : val :=
   match op, args with
   | 1, [_; _; _; tv; VInt idx; VList hts; tv'; VInt idx'; VInt wrongkey; _;
@@ -41,7 +46,23 @@ Definition run_C05 (op : Z) (args : list val) : val :=
                         (if predicted then val_eqb r1 (VInt 0) else is_validation_val r1));
                  vbool predicted]
       | _, _ => bad_args end
-  | 1, [_; _; _; _; _; _; _; _; _; _; VErr c] =>
+  | 2, [_; _; VInt m; tv; VInt idx; VList hts; tv'; VInt idx'; VList [VInt nk; VList plan]; _;
+        VList [r0; r1; VBytes ssig; VBytes spk; VBytes sub]] =>
+      (* signer plan: slot k is signed by key plan[k]; the script lists keys 0..nk-1 and asks for m.
+         Accepted iff the last m signatures are by listed keys, in the order the keys are listed, no key twice *)
+      match tx_of_val tv, tx_of_val tv' with
+      | Some t, Some t' =>
+          let t1 := with_sig_script t idx ssig in
+          let t2 := with_sig_script t' idx' ssig in
+          let used {A} (l : list A) := skipn (length l - Z.to_nat m) l in     (* surplus leading signatures are never looked at *)
+          let accept := (m <=? lenZ plan) && plan_ok (used (ints plan)) nk in
+          let predicted := accept && forallb (same_preimage sub t idx t' idx') (used (ints hts)) in
+          VList [VList [model_verify t1 idx ssig spk; model_verify t2 idx' ssig spk; VBytes ssig; VBytes spk; VBytes sub];
+                 vbool ((if accept then val_eqb r0 (VInt 0) else is_validation_val r0) &&
+                        (if predicted then val_eqb r1 (VInt 0) else is_validation_val r1));
+                 vbool predicted]
+      | _, _ => bad_args end
+  | _, [_; _; _; _; _; _; _; _; _; _; VErr c] =>
       (* signing itself raised (SignatureHash refuses SIGHASH_SINGLE without a matching output):
          outside the property's quantifier *)
       VList [VErr c; unconstrained]
